@@ -35,8 +35,9 @@ def size_fields(fields):
     return [f for f in fields if f[5] in ("size", "count")]
 
 
-def size_perturbations(b, fields, deltas=(-2, -1, 1, 2), absolutes=(0, 1), with_max=True, roles=("size",)):
-    """every size-like field perturbed by +-k, set to 0 / 1 / the width maximum / past the end of the input"""
+def size_perturbations(b, fields, deltas=(-4, -3, -2, -1, 1, 2, 3, 4), absolutes=(0, 1), with_max=True, roles=("size",)):
+    """every size-like field perturbed by +-1..4 (so that a region also ends inside 2- and 4-byte fields), set to 0 / 1 / the
+    width maximum / the values that reach exactly, just short of and just past the end of the input"""
     n = len(b)
     for path, tn, off, w, v, role in fields:
         if role not in roles:
